@@ -160,6 +160,17 @@ class InitSegment(DashElement):
             self.logging.error(msg)
             return None
         self.validate_moov(moov)
+        # ISO/IEC 23009-1 6.3.3: the movie box of an initialization segment
+        # has no samples, the media is in movie fragments. ISO/IEC 14496-12
+        # 8.8.1 and 8.8.3: that requires mvex with one trex per track
+        mvex = moov.find_child('mvex')
+        if self.elt.check_not_none(
+                mvex, msg='Failed to find MVEX box in this init segment',
+                clause='6.3.3'):
+            self.elt.check_not_none(
+                mvex.find_child('trex'),
+                msg='Failed to find TREX box in this init segment',
+                clause='6.3.3')
         pssh = moov.find_child('pssh')
         if pssh is not None:
             self.elt.check_true(
